@@ -39,6 +39,9 @@ type deadCase struct {
 	Flavour string        `json:"flavour"`
 	N       int           `json:"request_index,omitempty"` // 1 = handshake
 	At      time.Duration `json:"at_ns,omitempty"`
+	// Traffic: "" or the side ("client" / "server") whose application sends a message every I/2, so that
+	// the link dies with application requests in flight (instant flavours only)
+	Traffic string `json:"traffic,omitempty"`
 }
 
 func (c deadCase) dir() string {
@@ -56,7 +59,13 @@ func (c deadCase) where() string {
 	return fmt.Sprintf("t=%v", c.At)
 }
 
-func (c deadCase) name() string { return fmt.Sprintf("dead/%v/%s/%s", c.C, c.Flavour, c.where()) }
+func (c deadCase) name() string {
+	s := fmt.Sprintf("dead/%v/%s/%s", c.C, c.Flavour, c.where())
+	if c.Traffic != "" {
+		s += "/traffic=" + c.Traffic
+	}
+	return s
+}
 
 // runLen: the latest fault is at 3I; a correct implementation has closed both sides by 3I+(I+T). One
 // more I+T (and an I for good measure) shows how late a late detection is.
@@ -103,9 +112,37 @@ func deadScenario(c deadCase, bound int) *vx.Scenario {
 				p.flip(c.dir())
 			})
 		}
+		if c.Traffic != "" {
+			vsched.GoQuiet("app-sender-"+c.Traffic, func() {
+				for j := 1; ; j++ {
+					vsched.Sleep(c.C.I / 2)
+					closed := false
+					p.v.Do(func() { _, _, closed = p.firstClose() })
+					if closed {
+						return
+					}
+					if c.Traffic == "client" {
+						p.csock.Send(msg(fmt.Sprintf("m%d", j))) // hangs for good once the link is dead
+					} else {
+						p.ssock.Send(msg(fmt.Sprintf("m%d", j)))
+					}
+				}
+			})
+		}
 		vsched.Sleep(c.runLen())
 		if !p.flipped {
-			e.HarnessErr = fmt.Sprintf("the fault was never injected (%d requests seen)", p.link.n)
+			if _, _, closed := p.firstClose(); closed {
+				// the connection died while the link was still healthy: the fault position was never
+				// reached. That is the other half of the property, not a rig problem.
+				return func() vx.Result {
+					var r vx.Result
+					r.Outcome = fmt.Sprintf("closed before the fault: srv=%s cli=%s", closes(p.srvClose), closes(p.cliClose))
+					r.Violate(liveKillKey(killIdle, p), "%v: the connection was closed while the link still worked, before the fault (%s at %s) could be injected: server OnClose %s, client OnClose %s; %d pings reached the client (last at %v), %d pongs reached the server (last at %v)",
+						c.C, c.Flavour, c.where(), closes(p.srvClose), closes(p.cliClose), len(p.cliPingAt), last(p.cliPingAt), len(p.srvPongAt), last(p.srvPongAt))
+					return r
+				}
+			}
+			e.HarnessErr = fmt.Sprintf("the fault was never injected (%d requests seen) although the connection stayed open", p.link.n)
 			return nil
 		}
 		return func() vx.Result { return judgeDead(c, p) }
@@ -157,8 +194,9 @@ func judgeDead(c deadCase, p *pair) vx.Result {
 }
 
 // requestsIn3Periods runs the pair without any fault for three heartbeat periods and a half and
-// returns how many requests the client issued (handshake, polls, pong POSTs).
-func requestsIn3Periods(c itCfg) (n int, err error) {
+// returns how many requests the client issued (handshake, polls, pong POSTs). If the connection does
+// not survive that, killed holds the violation (key, message): a healthy connection was closed.
+func requestsIn3Periods(c itCfg) (n int, killed [2]string, err error) {
 	e := vsched.Run(vsched.Options{Horizon: time.Minute}, func(e *vsched.Exec) {
 		p, perr := newPair(e, c, 0, nil)
 		if perr != nil {
@@ -167,8 +205,9 @@ func requestsIn3Periods(c itCfg) (n int, err error) {
 		}
 		vsched.Sleep(3*c.I + c.I/2)
 		n = p.link.n
-		if len(p.srvClose)+len(p.cliClose) > 0 {
-			err = fmt.Errorf("fault-free probe run closed: server %s client %s", closes(p.srvClose), closes(p.cliClose))
+		if _, _, closed := p.firstClose(); closed {
+			killed = [2]string{liveKillKey(killIdle, p), fmt.Sprintf("%v: fault-free run of 3.5 heartbeat periods: server OnClose %s, client OnClose %s; %d pings reached the client (last at %v), %d pongs reached the server (last at %v)",
+				c, closes(p.srvClose), closes(p.cliClose), len(p.cliPingAt), last(p.cliPingAt), len(p.srvPongAt), last(p.srvPongAt))}
 		}
 	})
 	if err == nil && e.HarnessErr != "" {
@@ -188,6 +227,13 @@ func deadCases(c itCfg, nreq int) []deadCase {
 	for _, fl := range []string{"both@t", "responses@t"} {
 		for j := 1; j <= 12; j++ {
 			out = append(out, deadCase{C: c, Flavour: fl, At: time.Duration(j) * c.I / 4})
+		}
+		// with application requests in flight at the instant the link dies (every send instant is a
+		// fault instant)
+		for _, tr := range []string{"client", "server"} {
+			for j := 1; j <= 6; j++ {
+				out = append(out, deadCase{C: c, Flavour: fl, At: time.Duration(j) * c.I / 2, Traffic: tr})
+			}
 		}
 	}
 	return out
